@@ -46,6 +46,8 @@ type wireEnv struct {
 	st  *gosql.Stmt
 	srv *server.Server
 	n   int
+	cap *binCap // binary-protocol capture (rows of the quick table only)
+	ev  int     // capture every ev-th row
 }
 
 func newWireEnv() *wireEnv {
@@ -85,7 +87,8 @@ func newWireEnv() *wireEnv {
 	if err != nil {
 		panic(err)
 	}
-	w := &wireEnv{e: e, s: s, db: db, st: st, srv: srv}
+	w := &wireEnv{e: e, s: s, db: db, st: st, srv: srv, ev: 8}
+	w.cap = newBinCap(ln.Addr().String())
 	// warm-up row: the first statement of a server session fixes its view of the (still empty) table otherwise
 	w.n = 1
 	s.MustExec("INSERT INTO w (id) VALUES (1)")
@@ -101,6 +104,7 @@ func newWireEnv() *wireEnv {
 }
 
 func (w *wireEnv) close() {
+	w.cap.close()
 	w.st.Close()
 	w.db.Close()
 	w.srv.Close()
@@ -260,10 +264,20 @@ func (w *wireEnv) row(c *lib.Ctx, cs caseT) {
 			}
 		}
 	}
+	if w.cap != nil && (id%w.ev == 0 || w.ev == 1) {
+		ts := make([]types2, len(st.Schema))
+		for i := range st.Schema {
+			ts[i] = st.Schema[i].Type
+		}
+		w.binaryRow(c, cs, id, st.Rows[0], ts)
+	}
 }
+
+type types2 = gsql.Type
 
 func runWire(c *lib.Ctx, cs caseT) {
 	w := newWireEnv()
+	w.ev = 1
 	defer w.close()
 	w.row(c, cs)
 }
